@@ -8,6 +8,8 @@ HELPERS = r'''
 #[verifier::external_body] pub fn vx_char_to_string(c: char) -> (r: String) ensures r@ == seq![c] { unimplemented!() }
 #[verifier::external_body] pub fn vx_string_clone(s: &String) -> (r: String) ensures r@ == s@ { unimplemented!() }
 #[verifier::external_body] pub fn vx_char_count(s: &str) -> (r: usize) ensures r == s@.len() { unimplemented!() }
+pub uninterp spec fn char_total(v: Seq<String>) -> nat;      // the total number of code points of a list of strings
+#[verifier::external_body] pub fn vx_sum_char_counts(v: &Vec<String>) -> (r: usize) ensures r == char_total(v@) { unimplemented!() }
 #[verifier::external_body] pub fn vx_str_contains_char(s: &str, c: char) -> (r: bool) ensures r == s@.contains(c) { unimplemented!() }
 #[verifier::external_body] pub fn vx_str_ends_with_char(s: &str, c: char) -> (r: bool) ensures r == (s@.len() > 0 && s@.last() == c) { unimplemented!() }
 #[verifier::external_body] pub fn vx_str_starts_with_char(s: &str, c: char) -> (r: bool) ensures r == (s@.len() > 0 && s@[0] == c) { unimplemented!() }
@@ -192,7 +194,11 @@ def build_rep(repo, spec_dir, canary=False):
     import re as _re
     m = _re.search(r'\n([ \t]*)if ([^{}]+?) \{\s*continue;\s*\}', rf)
     if not m: raise X.LostAnchor('cluster.rs::replace_graphemes_with_repetitions guard of continue')
-    b.slice_fn('substr_guard', 'pub fn substr_guard(substr: &Vec<String>, config: &RegExpConfig) -> (skip: bool)', '    ' + m.group(2).strip(),
+    cond = m.group(2).strip()
+    lets = []
+    for lm in _re.finditer(r'\n[ \t]*(let (\w+)(?:: \w+)? = [^;]*;)', rf[:m.start()]):
+        if _re.search(r'\b%s\b' % lm.group(2), cond) and lm.group(2) not in ('substr', 'config'): lets.append(lm.group(1))
+    b.slice_fn('substr_guard', 'pub fn substr_guard(substr: &Vec<String>, config: &RegExpConfig) -> (skip: bool)', ''.join('    ' + l + '\n' for l in lets) + '    ' + cond,
                'cluster.rs::replace_graphemes_with_repetitions guard of `continue`', props=['C07'],
                clauses=[Clause('substr_guard.strict', 'skip == (substr@.len() < config.minimum_substring_length)', ['C13'])])
     b.emit('} // verus!\nfn main() {}')
